@@ -278,7 +278,7 @@ C23.level_text = (
     "Lean theorems, all unbounded: hold_refines (ONE refinement theorem for a Hold with several queues of one kind in one store: every history of push/pull/extend|update/clear/remove/count addressed to any "
     "key WITH reopen - close, open, inject fresh objects at every key, sync - at arbitrary positions: after every step result, in-memory content and durable content of EVERY queue are those of independent "
     "FIFO queues / insertion-ordered sets, i.e. durable mirror, reopen restores and key independence in one statement), durq_refines_fifo / dusq_refines_oset_partial (single queue), durable_mirror, "
-    "reopen_restores, no_mismatch_error, spec_other_queue_unchanged, dusq_content_nodup. Dusq theorems are _partial under '== coincides with equality of serialisations' (F38; witness "
+    "reopen_restores, no_mismatch_error, spec_other_queue_unchanged, dusq_content_nodup; rejected calls (None / foreign object as argument or at any position of a batch) are part of the history language of hold_refines (MOp.a + validate): rejected_op_is_identity (store, addressed queue and all other queues unchanged, result False / HierError / 0), rejected_iff_bad_argument. Dusq theorems are _partial under '== coincides with equality of serialisations' (F38; witness "
     "dusq_mirror_fails_without_guard, known finding C23-K1); all under the exact key guard of C24 at the queue keys. F37 (Dusq.remove always raised) is fixed. "
     "Tied to the code by a differential run on real lmdb with reopen at every gap and 1-2 queues per Hold.")
 C23.level_note = ("Trusted: Lean kernel + propext/Classical.choice/Quot.sound; the sorted-list model of lmdb and of env close/open; the abstraction of values to (==-class, serialisation). "
